@@ -414,6 +414,12 @@ def run(prog, rep, tier):
     rep.rule('RANGE-period-mixed', 'loop index compared against one period symbol only')
     if check_period_mixed(prog, rep) < 1:
         raise AnalysisError('RANGE-period-mixed: the common-unit-cell loop of expectation_value_power not found')
+    from ..flow import check_dict_forward
+    rep.rule('CALL-dict-forward', 'a dict parameter is not expanded with ** into a method that '
+             'declares that parameter itself (expectation_value -> expectation_value_finite/TM)')
+    check_dict_forward(prog, rep, ['tenpy/networks/mpo.py', 'tenpy/networks/mps.py',
+                                   'tenpy/networks/purification_mps.py',
+                                   'tenpy/networks/uniform_mps.py'])
     return rep.finish(
         level='other',
         explanation='Flag exhaustiveness over %d W-using MPO methods, flag forwarding of derived '
